@@ -13,7 +13,7 @@ package main
 //                                update through the same (now re-keyed) value | Save after changing the key in memory;
 //                                single and composite (id, loc) keys; new key unused / equal to another row's / unchanged
 //   rekey.tie  (correspondence)  real ConvertToAssignments (DryRun): key conditions, SET list and the in-memory value afterwards
-//                                vs Lean Model/UpdateKeys.lean `convertToAssignments Gen.updateKeyBlockBeforeAssignments`
+//                                vs Lean Model/UpdateKeys.lean `updConvertToAssignments Gen.updateKeyBlockBeforeAssignments`
 //
 // latitude: as in wantIDs (c02.go) the key may bind as last flat AND unit or as conjunct of the whole chain, and Not over a
 // multi-member AND unit without generated comparisons may negate the whole unit.
@@ -688,7 +688,7 @@ func c02RekeyTie(r *Result, rng *rand.Rand, n int) {
 		r.CorrCompared++
 		if got := canonRaw(res[i]); got != it.real {
 			r.Violate(Violation{Kind: "correspondence", Suite: "rekey.tie", Input: it.desc, Observed: it.real, Expected: got,
-				Note: "ConvertToAssignments: key conditions / SET list / in-memory value afterwards differ from Lean convertToAssignments (key block BEFORE the assignments)"})
+				Note: "ConvertToAssignments: key conditions / SET list / in-memory value afterwards differ from Lean updConvertToAssignments (key block BEFORE the assignments)"})
 		}
 	}
 }
